@@ -20,6 +20,7 @@ RULE = ('dumps = scenario content on 2-3 declared threads + one undeclared threa
         'non-trivial = (dump, configuration) whose every line was compared with the composition of its columns / the '
         'table model; distinct = distinct (dump, configuration)')
 QUICK_SHARDS = 8
+NO_BB_FLAVOUR = True       # (formatted_kevents prints str(bytes): BytesWarning under -bb on the unchanged tree)
 THOROUGH_SHARDS = 16
 ANSI = re.compile(r'\x1b\[[0-9;]*m')
 # names that fill the 32 argument bytes of a name-string record completely (no terminator) or but for one byte
